@@ -73,34 +73,73 @@ def task_scale_laws(ctx, symbolic_scale):
   X, Y = SymReal(x), SymReal(y)
   conf0 = dict(scale=sname)
   cases = [('km/hour**2', 'm/s**2'), ('hPa', 'Pa'), ('J/kg/K', 'm**2/s**2/K'), ('W/m**2', 'kg/s**3'), ('day', 'minute'), ('degK', 'degK'),
-           ('kg/m**3', 'g/cm**3'), ('1/day', '1/s')]
+           ('kg/m**3', 'g/cm**3'), ('1/day', '1/s'),
+           # dimensionless units that nevertheless carry a numerical factor (mixing ratios, percentages, angles, ratios of like units)
+           ('g/kg', 'dimensionless'), ('g/kg', 'g/kg'), ('dimensionless', 'percent'), ('percent', 'dimensionless'), ('degree', 'radian'),
+           ('radian', 'degree'), ('km/m', 'dimensionless'), ('hPa/Pa', 'percent')]
+
+  def concrete_scale(model):
+    if not symbolic_scale:
+      return sc
+    Lv, Tv, Mv, Hv = (_fval(model, v) for v in (L, T, M, H))
+    return scales.Scale(Lv * u.m, Tv * u.s, Mv * u.kg, Hv * u.degK)
+
+  def settle(name, conf, model, real_fn):
+    """A satisfiable query is reported only if the REAL Scale code (floats, real pint) shows the discrepancy at the solver's values."""
+    xv, yv = _fval(model, x), _fval(model, y)
+    got, want, what = real_fn(concrete_scale(model), xv, yv)
+    if abs(got - want) > 1e-11 * max(abs(want), abs(got)):
+      ctx.violation(name, dict(config=conf, kind='scale-law'), dict(inputs=[xv, yv], got=got, expected=want, what=what), f'{name}: {what}: got {got!r}, expected {want!r} (x={xv}, y={yv})')
+    else:
+      ctx.error(name, f'query satisfiable but the real code agrees at the solver values ({what})')
   for src, dst in cases:
     qs = X * u.parse_expression(src)
     nd = sc.nondimensionalize(qs)
-    back = sc.dimensionalize(nd, u.parse_units(dst) if hasattr(u, 'parse_units') else u.Unit(dst)).magnitude
+    back = sc.dimensionalize(nd, u.Unit(dst)).magnitude
     conv = float((1.0 * u.parse_expression(src)).to(dst).magnitude)
     exp = x * Q(conv)
-    ok, model = decide(ctx, 'scale.dimensionalize_inverts_nondimensionalize', dict(conf0, unit=src, target=dst), pre, z3.Not(_close(back.t, exp, exp)))
+    back_t = back.t if hasattr(back, 't') else Q(back)
+    cf = dict(conf0, unit=src, target=dst)
+    ok, model = decide(ctx, 'scale.dimensionalize_inverts_nondimensionalize', cf, pre, z3.Not(_close(back_t, exp, exp)))
     if not ok and model is not None:
-      xv = _fval(model, x)
-      if not symbolic_scale:
-        real = float(sc.dimensionalize(sc.nondimensionalize(xv * u.parse_expression(src)), u.Unit(dst)).magnitude)
-        if abs(real - xv * conv) > 1e-12 * abs(xv * conv):
-          ctx.violation('scale.dimensionalize_inverts_nondimensionalize', dict(config=dict(conf0, unit=src)), dict(inputs=[xv], got=real, expected=xv * conv),
-                        f'round trip of {xv} {src} -> {dst} gives {real}, expected {xv * conv}')
-          continue
-      ctx.error('scale.roundtrip', f'sat for {src}->{dst} (x={xv}) did not replay')
+      settle('scale.dimensionalize_inverts_nondimensionalize', cf, model,
+             lambda s_, xv, yv, src=src, dst=dst, conv=conv: (float(s_.dimensionalize(s_.nondimensionalize(xv * u.parse_expression(src)), u.Unit(dst)).magnitude), xv * conv,
+                                                              f'round trip {src} -> nondimensional -> {dst}'))
   # independence of the unit the quantity was expressed in
-  for a_, b_ in (('km/hour', 'm/s'), ('hPa', 'Pa'), ('hour', 's'), ('g', 'kg')):
+  for a_, b_ in (('km/hour', 'm/s'), ('hPa', 'Pa'), ('hour', 's'), ('g', 'kg'), ('g/kg', 'dimensionless'), ('degree', 'radian'), ('percent', 'dimensionless')):
     f = float((1.0 * u.parse_expression(a_)).to(b_).magnitude)
     n1 = sc.nondimensionalize(X * u.parse_expression(a_)); n2 = sc.nondimensionalize((X * f) * u.parse_expression(b_))
-    decide(ctx, 'scale.independent_of_input_unit', dict(conf0, units=[a_, b_]), pre, z3.Not(_close(n1.t, n2.t, _abs(n2.t))))
+    t1 = n1.t if hasattr(n1, 't') else Q(n1); t2 = n2.t if hasattr(n2, 't') else Q(n2)
+    cf = dict(conf0, units=[a_, b_])
+    ok, model = decide(ctx, 'scale.independent_of_input_unit', cf, pre, z3.Not(_close(t1, t2, _abs(t2))))
+    if not ok and model is not None:
+      settle('scale.independent_of_input_unit', cf, model,
+             lambda s_, xv, yv, a_=a_, b_=b_, f=f: (float(s_.nondimensionalize(xv * u.parse_expression(a_))), float(s_.nondimensionalize(xv * f * u.parse_expression(b_))),
+                                                    f'nondimensionalize in {a_} vs {b_}'))
+    # ... and of the unit it is converted back to: dimensionalize(v, a) and dimensionalize(v, b) are the same quantity
+    try:
+      d1 = sc.dimensionalize(X, u.Unit(a_)).magnitude; d2 = sc.dimensionalize(X, u.Unit(b_)).magnitude
+    except Exception as e:  # noqa: BLE001
+      ctx.error('scale.independent_of_output_unit', f'{a_}/{b_}: {type(e).__name__}: {e}')
+      continue
+    e1 = (d1.t if hasattr(d1, 't') else Q(d1)) * Q(f); e2 = d2.t if hasattr(d2, 't') else Q(d2)
+    ok, model = decide(ctx, 'scale.independent_of_output_unit', cf, pre, z3.Not(_close(e1, e2, _abs(e2))))
+    if not ok and model is not None:
+      settle('scale.independent_of_output_unit', cf, model,
+             lambda s_, xv, yv, a_=a_, b_=b_, f=f: (float(s_.dimensionalize(xv, u.Unit(a_)).magnitude) * f, float(s_.dimensionalize(xv, u.Unit(b_)).magnitude),
+                                                    f'dimensionalize to {a_} (converted) vs to {b_}'))
   # products, quotients, powers
   q1 = X * u.m / u.s; q2 = Y * u.kg / u.m ** 3
   n1, n2 = sc.nondimensionalize(q1), sc.nondimensionalize(q2)
-  for nm, comp, expect in (('product', q1 * q2, n1.t * n2.t), ('quotient', q1 / q2, n1.t / n2.t), ('square', q1 ** 2, n1.t * n1.t), ('cube', q1 ** 3, n1.t * n1.t * n1.t)):
+  for nm, comp, expect, real in (('product', q1 * q2, n1.t * n2.t, lambda s_, a, b: (float(s_.nondimensionalize((a * u.m / u.s) * (b * u.kg / u.m ** 3))), float(s_.nondimensionalize(a * u.m / u.s)) * float(s_.nondimensionalize(b * u.kg / u.m ** 3)), 'nd(q1 q2) vs nd(q1) nd(q2)')),
+                                 ('quotient', q1 / q2, n1.t / n2.t, lambda s_, a, b: (float(s_.nondimensionalize((a * u.m / u.s) / (b * u.kg / u.m ** 3))), float(s_.nondimensionalize(a * u.m / u.s)) / float(s_.nondimensionalize(b * u.kg / u.m ** 3)), 'nd(q1/q2) vs nd(q1)/nd(q2)')),
+                                 ('square', q1 ** 2, n1.t * n1.t, lambda s_, a, b: (float(s_.nondimensionalize((a * u.m / u.s) ** 2)), float(s_.nondimensionalize(a * u.m / u.s)) ** 2, 'nd(q^2) vs nd(q)^2')),
+                                 ('cube', q1 ** 3, n1.t * n1.t * n1.t, lambda s_, a, b: (float(s_.nondimensionalize((a * u.m / u.s) ** 3)), float(s_.nondimensionalize(a * u.m / u.s)) ** 3, 'nd(q^3) vs nd(q)^3'))):
     got = sc.nondimensionalize(comp)
-    decide(ctx, 'scale.multiplicative', dict(conf0, law=nm), pre, z3.Not(_close(got.t, expect, _abs(expect))), timeout=120000)
+    cf = dict(conf0, law=nm)
+    ok, model = decide(ctx, 'scale.multiplicative', cf, pre, z3.Not(_close(got.t, expect, _abs(expect))), timeout=120000)
+    if not ok and model is not None:
+      settle('scale.multiplicative', cf, model, real)
   # a dimension without a scale is rejected
   part = scales.Scale(1 * u.m, 1 * u.s)
   try:
